@@ -56,7 +56,14 @@ RULE = ("Tag multisets of size <= 3 (quick) / <= 4 (thorough; size 5 with plain 
         "composite's own entry} x 2 query orders x tag multisets <= 2 (<= 3) over 7 tags: every answer follows the "
         "formula with the source's value at that moment; only where the composite provider keeps a value discovered in a "
         "member (member entry replaced; callable evaluated by an ActiveTagValueProvider member) the first discovered "
-        "value is accepted as well. Shipped providers: "
+        "value is accepted as well. Construction histories: every sequence of 1-3 matcher constructions over 9 variants "
+        "(base class with defaults; subclasses with class-level value_separator ':' / '-', tag_schema '.if_', "
+        "tag_prefixes [use, not], both; base class with its value_separator re-assigned to ':' for one construction; "
+        "explicit constructor arguments value_separator=':' / tag_prefixes=[use, not]) inside a private fresh copy of "
+        "behave.tag_matcher; each matcher answers 55 tag lists (37 tags written with the separators = : - and the "
+        "markers .with_ / .if_) when built and again after all later constructions: verdicts follow the formula with "
+        "the variant's own resolved prefixes/separator/schema and tag_pattern equals that of the variant constructed "
+        "alone. Shipped providers: "
         "multisets <= 2 (<= 3) over ~100 tags (every category of behave.active_tag.python and .python_feature x "
         "prefixes x matching/non-matching/malformed values, versions below/equal/above the running interpreter) x "
         "{python dict, python_feature dict, ActiveTagValueProvider(python), Composite(python, python_feature)}, expected "
@@ -93,9 +100,10 @@ WORD = set("abcdefghijklmnopqrstuvwxyzABCDEFGHIJKLMNOPQRSTUVWXYZ0123456789_")
 
 
 # ---------------------------------------------------------------- reference model (from the statement)
-def parse_active(tag, prefixes, sep):
-    """PREFIX.with_CATEGORY<sep>VALUE  with CATEGORY = dot-separated words; None if not an active tag"""
-    head, mid, rest = tag.partition(".with_")
+def parse_active(tag, prefixes, sep, marker=".with_"):
+    """PREFIX.with_CATEGORY<sep>VALUE  with CATEGORY = dot-separated words; None if not an active tag
+    (marker: the literal between prefix and category, for matcher classes with a schema of their own)"""
+    head, mid, rest = tag.partition(marker)
     if not mid or head not in prefixes:
         return None
     idx = rest.find(sep)
@@ -108,11 +116,11 @@ def parse_active(tag, prefixes, sep):
     return head, category, value
 
 
-def ref_exclude(tags, known, prefixes=DEFAULT_PREFIXES, sep="="):
+def ref_exclude(tags, known, prefixes=DEFAULT_PREFIXES, sep="=", marker=".with_"):
     """known: category -> predicate(tag_value); the statement's formula verbatim"""
     pos, neg = {}, {}
     for t in tags:
-        p = parse_active(t, prefixes, sep)
+        p = parse_active(t, prefixes, sep, marker)
         if p is None or p[1] not in known:
             continue
         (neg if p[0] in NEGATIVE else pos).setdefault(p[1], []).append(bool(known[p[1]](p[2])))
@@ -994,6 +1002,162 @@ def check_time_varying(case):
     return {"v": v, "nt": nt, "out": ("time", holder, obs[0][3][0] if obs else None), "dg": obs, "n": n}
 
 
+# ---- construction histories ---------------------------------------------------------------------------
+# Several matcher classes / configurations live in one process (base class, subclasses that customise the separator,
+# the prefixes or the schema through CLASS attributes, explicit constructor arguments, a class attribute re-assigned
+# between two constructions).  Constructing one matcher must never influence another: every matcher of a history
+# decides - when built, and again after everything else was built - exactly like the same variant constructed ALONE,
+# i.e. by the formula with its own resolved prefixes / separator / schema.  Each history runs in a private fresh copy
+# of behave.tag_matcher (fresh class-level state, nothing leaks between cases or into the other sweeps).
+CH_SCHEMA_IF = r"^(?P<prefix>%s)\.if_(?P<category>\w+(\.\w+)*)%s(?P<value>.*)$"
+# variant -> (resolved prefixes, separator, marker, parameter source)
+CH_VARIANTS = {
+    "base-defaults": (DEFAULT_PREFIXES, "=", ".with_", "class-attributes"),
+    "subclass-separator-colon": (DEFAULT_PREFIXES, ":", ".with_", "class-attributes"),
+    "subclass-separator-dash": (DEFAULT_PREFIXES, "-", ".with_", "class-attributes"),
+    "subclass-schema-if": (DEFAULT_PREFIXES, "=", ".if_", "class-attributes"),
+    "subclass-prefixes-use-not": (("use", "not"), "=", ".with_", "class-attributes"),
+    "subclass-prefixes-use-not-colon": (("use", "not"), ":", ".with_", "class-attributes"),
+    "base-attribute-reassigned-colon": (DEFAULT_PREFIXES, ":", ".with_", "class-attributes"),
+    "explicit-separator-colon": (DEFAULT_PREFIXES, ":", ".with_", "constructor-arguments"),
+    "explicit-prefixes-use-not": (("use", "not"), "=", ".with_", "constructor-arguments"),
+}
+CH_NAMES = tuple(CH_VARIANTS)
+CH_VALUES = {"a": "1", "b": "x"}
+CH_TAGS = tuple("%s%s%s%s%s" % (pre, marker, cat, sep, val)
+                for marker in (".with_", ".if_") for sep in ("=", ":", "-")
+                for pre, cat, val in (("use", "a", "1"), ("use", "a", "2"), ("not", "a", "1"), ("only", "a", "2"),
+                                      ("not_active", "a", "1"), ("use", "zz", "1"))) + ("foo",)
+CH_QUERIES = tuple((t,) for t in CH_TAGS) + tuple((CH_TAGS[i], CH_TAGS[(i * 7 + 3) % len(CH_TAGS)])
+                                                   for i in range(0, len(CH_TAGS), 2))
+_CH_CODE = {}
+
+
+def fresh_tag_matcher_module():
+    """a private, freshly executed copy of behave/tag_matcher.py (not registered in sys.modules)"""
+    import types
+    import behave.tag_matcher as real
+    path = real.__file__
+    if path.endswith(("c", "o")):
+        path = path[:-1]
+    if path not in _CH_CODE:
+        with open(path) as f:
+            _CH_CODE[path] = compile(f.read(), path, "exec")
+    mod = types.ModuleType("behave.tag_matcher")
+    mod.__package__ = "behave"
+    mod.__file__ = path
+    exec(_CH_CODE[path], mod.__dict__)
+    return mod
+
+
+def ch_construct(M, name, classes):
+    """construct one variant inside module copy M; -> matcher.  `classes` memoises the subclasses of this copy"""
+    base = M.ActiveTagMatcher
+    vals = dict(CH_VALUES)
+    if name == "base-defaults":
+        return base(vals)
+    if name == "explicit-separator-colon":
+        return base(vals, value_separator=":")
+    if name == "explicit-prefixes-use-not":
+        return base(vals, tag_prefixes=["use", "not"])
+    if name == "base-attribute-reassigned-colon":
+        saved = base.value_separator
+        base.value_separator = ":"
+        try:
+            return base(vals)
+        finally:
+            base.value_separator = saved
+    if name not in classes:
+        attrs = {"subclass-separator-colon": {"value_separator": ":"},
+                 "subclass-separator-dash": {"value_separator": "-"},
+                 "subclass-schema-if": {"tag_schema": CH_SCHEMA_IF},
+                 "subclass-prefixes-use-not": {"tag_prefixes": ["use", "not"]},
+                 "subclass-prefixes-use-not-colon": {"tag_prefixes": ["use", "not"], "value_separator": ":"}}[name]
+        classes[name] = type("Matcher_" + name.replace("-", "_"), (base,), attrs)
+    return classes[name](vals)
+
+
+def ch_observe(matcher):
+    """pattern text + every verdict"""
+    return (matcher.tag_pattern.pattern, tuple(query(matcher, q) for q in CH_QUERIES))
+
+
+def ch_reference(name):
+    prefixes, sep, marker, _src = CH_VARIANTS[name]
+    known = {"a": (lambda tv: tv == "1"), "b": (lambda tv: tv == "x")}
+    return tuple(ref_exclude(q, known, prefixes, sep, marker) for q in CH_QUERIES)
+
+
+def ch_play(history):
+    """-> list of (name, observation when built, observation after everything was built)"""
+    M = fresh_tag_matcher_module()
+    classes, built = {}, []
+    for name in history:
+        m = ch_construct(M, name, classes)
+        built.append((name, m, ch_observe(m)))
+    return [(name, first, ch_observe(m)) for name, m, first in built]
+
+
+def ch_faults(obs, ref):
+    """indexes of queries answered wrongly (exclude wrong, run not its negation, or exception)"""
+    return [i for i, (g, w) in enumerate(zip(obs[1], ref)) if g[0] == "EXC" or g[0] != w or g[1] != (not w)]
+
+
+def check_construction_history(history):
+    history = tuple(history)
+    names = [CH_NAMES[i] for i in history]
+    v, obs, n = [], [], 0
+    alone = {}
+    for name in sorted(set(names)):
+        alone[name] = ch_play((name,))[0][1]
+    played = ch_play(names)
+    for pos, (name, first, later) in enumerate(played):
+        ref = ch_reference(name)
+        n += 2 * len(CH_QUERIES)
+        obs.append((name, first, later))
+        src = CH_VARIANTS[name][3]
+        if ch_faults(alone[name], ref) and pos == names.index(name):
+            i = ch_faults(alone[name], ref)[0]
+            v.append(({"subcheck": "construction-history", "clause": "formula", "variant": name},
+                      "matcher variant %s constructed alone: tags %r -> %r, its own prefixes/separator/schema say "
+                      "exclude=%s" % (name, list(CH_QUERIES[i]), alone[name][1][i], ref[i])))
+            continue
+        for moment, o in (("when built", first), ("after the later constructions", later)):
+            bad = ch_faults(o, ref)
+            pattern_differs = o[0] != alone[name][0]
+            if not bad and not pattern_differs:
+                continue
+            # minimal trigger: which single other construction is enough?
+            others = names[:pos] if moment == "when built" else names[:pos] + names[pos + 1:]
+            culprit = None
+            for other in others:
+                seq = (other, name) if (moment == "when built" or other in names[:pos]) else (name, other)
+                res = ch_play(seq)
+                k = seq.index(name) if seq[0] != seq[1] else 1
+                o2 = res[k][1] if moment == "when built" else res[k][2]
+                if ch_faults(o2, ref) or o2[0] != alone[name][0]:
+                    culprit = other
+                    break
+            d = {"subcheck": "construction-history",
+                 "clause": "verdict-depends-on-other-construction" if bad else "tag-pattern-depends-on-other-construction",
+                 "parameters-from": src,
+                 "other-parameters-from": CH_VARIANTS[culprit][3] if culprit else "combination",
+                 "other-built": "earlier" if (moment == "when built" or (culprit in names[:pos])) else "later"}
+            if bad:
+                i = bad[0]
+                detail = "tags %r -> (exclude, run) = %r, its own prefixes/separator/schema say exclude=%s" % (
+                    list(CH_QUERIES[i]), o[1][i], ref[i])
+            else:
+                detail = "tag_pattern is %r" % (o[0],)
+            v.append((d, "constructions in one process %r: matcher #%d (%s) %s: %s; constructed alone its tag_pattern is "
+                         "%r%s" % (names, pos + 1, name, moment, detail, alone[name][0],
+                                   " (already wrong after constructing only %s)" % culprit if culprit else "")))
+            break
+    nt = ("construct", history) if len(set(names)) > 1 else None
+    return {"v": v, "nt": nt, "out": ("construct", tuple(sorted(set(CH_VARIANTS[x][1:3] for x in names)))),
+            "dg": [(nm, f, l) for nm, f, l in obs], "n": n}
+
+
 # ---- providers that look empty ---------------------------------------------------------------------------
 # Truthiness / len() of a provider says nothing about what it knows: a composite provider is a UserDict whose
 # own data is only the lookup cache.  Every tag multiset x every order of the two questions, fresh objects each time.
@@ -1187,6 +1351,7 @@ def run(ctx):
     ssize = 2 if ctx.quick else 3
     ntags = len(shipped_tags())
     ctx.bounds = {"multiset_size": size, "multiset_size_plain_strings": size if ctx.quick else 5,
+                  "construction_history_variants": list(CH_NAMES), "construction_history_length": 3,
                   "time_varying_holders": list(TV_HOLDERS), "time_varying_sequence_lengths": [2, 3],
                   "time_varying_tag_multiset_size": 2 if ctx.quick else 3, "override_routes": list(OV_ROUTES), "override_values": list(OV_VALUES), "override_member_states": list(OV_MEMBER),
                   "override_tag_multiset_size": 2 if ctx.quick else 3, "query_orders": list(ORDERS), "query_order_value_kinds_main_sweep": list(ORDER_KINDS),
@@ -1213,6 +1378,8 @@ def run(ctx):
                               for pk in H_PROVIDERS),
               chunk=32, name="provider histories before the matcher query")
     ctx.sweep(check_corner, multisets(len(ALPHABET), size), chunk=16, name="providers that look empty x query order")
+    ctx.sweep(check_construction_history, (h for k in (1, 2, 3) for h in itertools.product(range(len(CH_NAMES)), repeat=k)),
+              chunk=8, name="construction histories of matcher variants")
     ctx.sweep(check_time_varying, ((h, t) for t in multisets(len(TV_ALPHABET), 2 if ctx.quick else 3) for h in TV_HOLDERS),
               chunk=4, name="time-varying sources, one long-lived matcher")
     ctx.sweep(check_override, ((r, ms, lu, t) for t in multisets(len(OV_ALPHABET), 2 if ctx.quick else 3)
@@ -1228,6 +1395,10 @@ def run(ctx):
     ctx.guard(sum(1 for k in ctx.nt if k[0] == "main") > 5000,
               "at least 5000 distinct (multiset, assignment) with an active tag of a known category")
     ctx.guard(sum(1 for k in ctx.nt if k[0] == "bool") > 500, "at least 500 non-trivial boolean cases")
+    ctx.guard(sum(1 for k in ctx.nt if k[0] == "construct") > 500, "at least 500 construction histories over different variants")
+    refs = dict((nm, ch_reference(nm)) for nm in CH_NAMES)
+    ctx.guard(len(set(refs.values())) >= 6 and all(any(r) and not all(r) for r in refs.values()),
+              "matcher variants: at least 6 pairwise different reference verdict vectors, each with both verdicts")
     ctx.guard(sum(1 for k in ctx.nt if k[0] == "time") > 150, "at least 150 non-trivial (holder, tag list) with changing source")
     to = set(k[1:] for k in ctx.outcomes if k[0] == "time")
     ctx.guard(all((h, (True, False)) in to and (h, (False, True)) in to for h in TV_HOLDERS),
